@@ -334,4 +334,4 @@ def run(F, rep):
     if not getattr(rep, 'nested', False):
         import core
         import c01
-        c01.run(F, core.Borrowed(rep, only={'C01.R1'}))
+        core.borrow(F, rep, c01, only={'C01.R1'})
